@@ -109,6 +109,17 @@ def run(ctx):
         if i in frows:
             ctx.distinct.add(tuple(frows[i][2:]))
     ctx.sample({'line': 'cs_row 49199', 'impl': impl[65536 + 49199]})
+    # a lookup has no memory: every listed id (and some unlisted ones) as the *first* call of a fresh process, and in
+    # descending order, must answer exactly what it answers inside the ascending sweep
+    probe_ids = sorted(frows) + [rng.randrange(65536) for _ in range(40)] + [0, 1, 65535]
+    fl = ['cs_id %d' % i for i in probe_ids]
+    first = core.run_lines(exe, fl, chunk=1)
+    desc = core.run_lines(exe, fl[::-1], chunk=len(fl))[::-1]
+    for i, a, d in zip(probe_ids, first, desc):
+        ctx.count('first_call_lookups', 'same' if a == impl[i] == d else 'DIFFER')
+        if not (a == impl[i] == d):
+            ctx.violation('cs_id %d answers "%s" as the first call of a process, "%s" in a descending sweep and "%s" inside the ascending sweep' % (i, a, d, impl[i]),
+                          {'lines': ['cs_id %d' % i], 'first_call': a, 'descending': d, 'in_sweep': impl[i]}, key='state:%d' % i)
     # names: every registry name and perturbed names (prefix, suffix, case, neighbour) through both name routes
     names = {f[1]: f[0] for f in frows.values()}
     probes = []
